@@ -2,6 +2,7 @@ package simrt
 
 import (
 	"fmt"
+	"reflect"
 	"sort"
 )
 
@@ -74,3 +75,61 @@ func Range[K comparable, V any](m map[K]V) []Entry[K, V] {
 	}
 	return out
 }
+
+// MapKeys replaces reflect.Value.MapKeys in rewritten code: the keys in the
+// world's seeded order instead of the runtime's random one.
+func MapKeys(v reflect.Value) []reflect.Value {
+	keys := v.MapKeys()
+	if len(keys) < 2 {
+		return keys
+	}
+	strs := make([]string, len(keys))
+	idx := make([]int, len(keys))
+	for i, k := range keys {
+		strs[i] = fmt.Sprintf("%#v", k.Interface())
+		idx[i] = i
+	}
+	sort.Slice(idx, func(a, b int) bool { return strs[idx[a]] < strs[idx[b]] })
+	sorted := make([]reflect.Value, len(keys))
+	for i, j := range idx {
+		sorted[i] = keys[j]
+	}
+	w := Cur()
+	if w == nil || w.Dead() {
+		return sorted
+	}
+	p := w.permute(len(sorted))
+	out := make([]reflect.Value, len(sorted))
+	for i, j := range p {
+		out[i] = sorted[j]
+	}
+	return out
+}
+
+// MapIter replaces *reflect.MapIter in rewritten code.
+type MapIter struct {
+	m    reflect.Value
+	keys []reflect.Value
+	i    int
+}
+
+// MapRange replaces reflect.Value.MapRange.
+func MapRange(v reflect.Value) *MapIter { return &MapIter{m: v, keys: MapKeys(v), i: -1} }
+
+// Next advances to the next entry still present in the map.
+func (it *MapIter) Next() bool {
+	for it.i+1 < len(it.keys) {
+		it.i++
+		if it.m.MapIndex(it.keys[it.i]).IsValid() {
+			return true
+		}
+	}
+	it.i = len(it.keys)
+	return false
+}
+
+// Key returns the key of the current entry.
+func (it *MapIter) Key() reflect.Value { return it.keys[it.i] }
+
+// Value returns the value of the current entry.
+func (it *MapIter) Value() reflect.Value { return it.m.MapIndex(it.keys[it.i]) }
